@@ -183,11 +183,12 @@ def tuple_parts(ty):
 # ------------------------------------------------------------------ state
 
 class Frame:
-    __slots__ = ('fn', 'cells', 'bb', 'dest', 'ret_bb', 'active')
+    __slots__ = ('fn', 'cells', 'bb', 'dest', 'ret_bb', 'active', 'seen_bb', 'prev_bb')
 
     def __init__(self, fn, cells, bb=0, dest=None, ret_bb=None):
         self.fn, self.cells, self.bb, self.dest, self.ret_bb = fn, cells, bb, dest, ret_bb
         self.active = []  # loop heads currently being iterated in this frame
+        self.seen_bb = self.prev_bb = None   # block being executed / the one before it (edge by which a loop is left)
 
 
 class State:
@@ -202,6 +203,7 @@ class State:
         self.symcells = {}    # term -> Cell (identity of symbolic objects)
         self.fresh = [0]
         self.calls = []       # log of call sites visited: (callee, site, args-as-terms)
+        self.loop_exits = []  # (fn path, head, from bb | None for a return inside the loop, to bb): how each loop was left
 
     def clone(self):
         s = State()
@@ -210,6 +212,7 @@ class State:
             nf = Frame(f.fn, [clone_cell(c, memo) for c in f.cells], f.bb, None, f.ret_bb)
             nf.dest = f.dest
             nf.active = list(f.active)
+            nf.seen_bb, nf.prev_bb = f.seen_bb, f.prev_bb
             s.frames.append(nf)
         s.pc = list(self.pc)
         s.pcset = set(self.pcset)
@@ -220,6 +223,7 @@ class State:
         s.symcells = {k: clone_cell(c, memo) for k, c in self.symcells.items()}
         s.fresh = self.fresh  # shared counter: names stay unique across forks
         s.calls = list(self.calls)
+        s.loop_exits = list(self.loop_exits)
         # destinations hold (cell, path): remap
         for f, nf in zip(self.frames, s.frames):
             if f.dest is not None:
@@ -322,7 +326,46 @@ class Interp:
         rel = self.cone(st.pc, extra, goal)
         if rel is not None and self.unsat(rel[0], rel[1]):
             return True
-        return self.unsat(st.pc, extra)
+        if self.unsat(st.pc, extra):
+            return True
+        # congruence through variables the path equates (x <= y and y <= x, or x == y): f(x) and f(y) are the same atom
+        m = self.var_equalities(st.pc)
+        if m:
+            pc2 = tuple(f2 for f2 in (T.subst(f, m) for f in st.pc) if not (T.is_bool(f2) and f2[1]))
+            ex2 = tuple(T.subst(f, m) for f in extra)
+            if any(T.is_bool(f) and not f[1] for f in ex2):
+                return True
+            if pc2 != tuple(st.pc) or ex2 != extra:
+                return self.unsat(pc2, tuple(f for f in ex2 if not (T.is_bool(f) and f[1])))
+        return False
+
+    def var_equalities(self, pc):
+        les = set()
+        pairs = []
+        for f in pc:
+            if f[0] == 'cmp' and f[2][0] == 'var' and f[3][0] == 'var':
+                if f[1] == 'eq':
+                    pairs.append((f[2], f[3]))
+                elif f[1] == 'le':
+                    if (f[3], f[2]) in les:
+                        pairs.append((f[2], f[3]))
+                    les.add((f[2], f[3]))
+        if not pairs:
+            return None
+        rep = {}
+
+        def find(x):
+            while rep.get(x, x) != x:
+                x = rep[x]
+            return x
+        for a, b in pairs:
+            ra, rb = find(a), find(b)
+            if ra != rb:
+                if repr(ra) < repr(rb):
+                    rep[rb] = ra
+                else:
+                    rep[ra] = rb
+        return {x: find(x) for x in rep if find(x) != x}
 
     _ATOM_HEADS = ('var', 'fld', 'vfld', 'elem', 'len', 'call', 'discr', 'mono', 'div', 'rem', 'bitand', 'bitor', 'bitxor', 'shl', 'shr', 'post', 'upd', 'quant')
 
@@ -1051,9 +1094,11 @@ class Interp:
             fn = fr.fn
             # loop handling
             loops = fn_loops(fn)
+            if fr.seen_bb != fr.bb:
+                fr.prev_bb, fr.seen_bb = fr.seen_bb, fr.bb
             # leaving active loops?
             while fr.active and fr.bb not in loops[fr.active[-1]]:
-                fr.active.pop()
+                st.loop_exits.append((fn.path, fr.active.pop(), fr.prev_bb, fr.bb))
             if fr.bb in loops and (not fr.active or fr.active[-1] != fr.bb):
                 if fr.bb in fr.active:
                     raise Unanalysable('irreducible re-entry of loop bb%d in %s' % (fr.bb, fn.path))
@@ -1109,6 +1154,8 @@ class Interp:
                     return
             elif k == 'return':
                 rv = fr.cells[0].v
+                for h in reversed(fr.active):
+                    st.loop_exits.append((fn.path, h, None, None))
                 if len(st.frames) == 1:
                     out.append(Outcome('ret', st, value=rv))
                     return
@@ -1157,6 +1204,10 @@ class Interp:
         else:
             dv = d
             listed = []
+            bits = {'i8': 8, 'i16': 16, 'i32': 32, 'i64': 64, 'isize': 64}.get(dty)
+            if bits:
+                # switch values are printed as unsigned bit patterns
+                targets = [[v - (1 << bits) if v >= (1 << (bits - 1)) else v, bb] for v, bb in targets]
             for v, bb in targets:
                 alts.append((T.mk_cmp('eq', dv, I(v)), bb, v))
                 listed.append(v)
